@@ -580,12 +580,13 @@ func init() {
 		Explanation: "Decided: X3 in newEnv4Func the frame pool is reached only through the record selected by `if run.goid != goid { run = run.getRun4Goid(goid) }` with goid = gls.GoID() read in the same call, the new frame is tagged with that record and becomes its CurrEnv; getRun4Goid registers the record it creates; Comp.Go creates the goroutine's record with its own id, registers it and unregisters it with defer; " +
 			"X1 lock set: every access of IrGlobals.gls lies between lock.Lock() and lock.Unlock() of the same object; X2 SpinLock.Lock returns only after a successful CompareAndSwapInt32(s,0,1); O ownership: Run.goid is written only where a record is created, Run.Pool/PoolSize only by the allocator; N2 every interpreted function body runs on a frame obtained with newEnv4Func (never NewEnv); U sibling uniformity of func*ret*.go. " +
 			"X3r every creation of a per-goroutine record (newTopInterp, getRun4Goid, Comp.Go) is followed in the same function by its registration under its own goroutine id; X3g the record of a new goroutine is attached to the frame created for it, never to the parent's frame. " +
-			"Not decided: uniqueness of GoID among live goroutines (assembly, trusted), schedules.",
+			"O4 a frame is released into the Run recorded in the frame itself (FreeEnv and freeEnv4Func read the Run field of the receiver, not that of another frame of the chain). Not decided: uniqueness of GoID among live goroutines (assembly, trusted), schedules.",
 		Assumptions: []string{"gls.GoID returns a value unique among live goroutines", "sync/atomic semantics"},
 		Rules: []func(*Ctx){func(c *Ctx) {
 			ruleGoidGate(c, "X3-goid-gate")
 			ruleGoAttachesToOwnFrame(c, "X3g-go-own-frame")
 			ruleRunRegistered(c, "X3r-run-registered")
+			ruleReleaseIntoOwnRun(c, "O4-release-into-own-run")
 			ruleLockSet(c, "fast", "IrGlobals", "gls", "lock", "X1-lock-set")
 			ruleSpinLock(c, "X2-spinlock")
 			ruleOwnership(c, "O-goid-owner", "fast", "Run", "goid", []string{"fast.Run.new#lit", "fast.newTopInterp#lit"}, "a record's goroutine id is fixed when the record is created")
@@ -597,6 +598,7 @@ func init() {
 		}},
 		ThoroughConfigs: []string{"linux/386", "linux/arm64", "darwin/amd64"},
 		Mutants: []Mutant{
+			{Name: "frame-released-into-declaring-goroutines-pool", File: "fast/compile.go", Old: "func (env *Env) freeEnv4Func() {\n\trun := env.Run\n", New: "func (env *Env) freeEnv4Func() {\n\trun := env.Outer.Run\n"},
 			{Name: "main-record-not-registered", File: "fast/interpreter.go", Old: "\tg.gls[goid] = run\n", New: ""},
 			{Name: "goroutine-record-attached-to-parent-frame", File: "fast/statement.go", Old: "\t\t\tenv2.Run = tg2\n", New: "\t\t\tenv.Run = tg2\n"},
 			{Name: "frame-tagged-with-declaring-goroutine", File: "fast/compile.go", Old: "\t\tenv.Outer = outer\n\t\tenv.Run = run\n\t\tenv.FileEnv = outer.FileEnv\n\t}\n\tenv.DebugComp = debugComp", New: "\t\tenv.Outer = outer\n\t\tenv.Run = outer.Run\n\t\tenv.FileEnv = outer.FileEnv\n\t}\n\tenv.DebugComp = debugComp", Canary: true},
@@ -720,9 +722,10 @@ func init() {
 		Explanation: "Decided: T1 transactional publication: in every declaration compiler (Decl*, methodDecl, Import) that writes the compiler's persistent registry (NewBind / NewFuncBind / methodAdd with a real name, stores into Binds or Types), either no step that can still fail follows the write (failure reachability computed over the statically resolved call graph: a function can fail if it reaches panic), or a rollback registered with defer before the write restores the previous definition while a flag is still armed and the flag is cleared on the normal path; " +
 			"T2 compile precedes run: ParseEvalPrint / Eval compile the whole input before RunExpr. " +
 			"T3 methodAdd and methodFind reduce a pointer receiver to its element type under the same condition; T4 a grouped import validates every spec before one call binds them all; O the slot counters BindNum / IntBindNum are written by the allocator only (a rollback never gives a slot back). For methods the rollback re-publishes the saved method type through the same registry call and stores the saved function value back (F6, fixed). " +
-			"Not decided: the redefinition sentence (old variables keep their type and readability), which depends on named-type identity in xreflect.",
+			"T1s a rollback that deletes a name from a registry map also stores the entry remembered before the declaration back (DeclType, DeclFunc, DeclVar0). Not decided: the redefinition sentence (old variables keep their type and readability), which depends on named-type identity in xreflect.",
 		Assumptions: []string{"calls through interfaces and function values are not followed by the failure-reachability analysis"},
 		Rules: []func(*Ctx){func(c *Ctx) {
+			ruleSavedEntryRestored(c, "T1s-saved-entry-restored")
 			ruleTransactionalDecls(c, "T1-transactional-decl")
 			ruleCompileBeforeRun(c, "T2-compile-before-run")
 			ruleReceiverNormalisation(c, "T3-receiver-normalisation")
@@ -731,6 +734,7 @@ func init() {
 			ruleOwnership(c, "O-slot-counters", "fast", "CompBinds", "IntBindNum", []string{"fast.CompBinds.NewBind"}, "slots are only ever handed out by the allocator: a counter that goes back would give the slot of a live variable to the next declaration")
 		}},
 		Mutants: []Mutant{
+			{Name: "failed-type-redefinition-keeps-half-built-type", File: "fast/type.go", Old: "\t\t} else if oldt != nil {\n\t\t\tc.Types[name] = oldt\n\t\t} else {", New: "\t\t} else if oldt != nil {\n\t\t} else {"},
 			{Name: "rollback-looks-for-pointer-receiver-elsewhere", File: "fast/function.go", Old: "\ttrecv = t.In(0)\n\tif trecv.Kind() == r.Ptr && !trecv.Named() {", New: "\ttrecv = t.In(0)\n\tif trecv.Kind() == r.Ptr && trecv.Named() {"},
 			{Name: "grouped-import-binds-spec-by-spec", File: "fast/import.go", Old: "\t\t\tpaths[path] = name\n", New: "\t\t\tpaths[path] = name\n\t\t\tif _, err := c.ImportPackagesOrError(map[string]PackageName{path: name}); err != nil {\n\t\t\t\tc.Errorf(\"error importing package %q: %v\", path, err)\n\t\t\t}\n"},
 			{Name: "declvar-rollback-removed", File: "fast/declaration.go", Old: "\t\t} else if oldbind != nil {\n\t\t\tc.Binds[name] = oldbind\n\t\t} else {\n\t\t\tdelete(c.Binds, name)\n\t\t}\n\t}()\n\tbind := c.NewBind(name, VarBind, t)", New: "\t\t}\n\t\t_ = oldbind\n\t}()\n\tbind := c.NewBind(name, VarBind, t)"},
@@ -902,14 +906,18 @@ func init() {
 		Title: "Debugging is transparent and step/next/finish/continue stop where documented",
 		Explanation: "Decided: B1 table agreement: with the single stop test `env.CallDepth < run.DebugDepth` of singleStep, the depths requested by the commands (step: MaxInt, next: CallDepth+1, finish: CallDepth, continue: 0) give exactly the four documented behaviours (any depth / same or shallower / shallower / breakpoints only) — the checker derives the class from the operator and the offsets; singleStep executes exactly one statement per call and reaches the debugger hook under the stop test; applyDebugOp turns single-stepping on iff the depth is > 0 and records it; a function frame's CallDepth is its caller's + 1; a DebugOp returned without asking the user (synthetic statements) keeps Depth = run.DebugDepth; B2 a body that falls off its end terminates while single-stepping (the end-of-code sentinel signals the return only when no signal at all is pending, so singleStep raises SigReturn at the last index of env.Code); N4 every compiler recorded in a frame for the debugger (Env.DebugComp, or the debugComp argument of the ~600 newEnv4Func call sites) is a variable that is nil unless assigned under a test of exactly base.OptDebugger; X5 (shared with C07) a SigDefer raised by a stepped defer statement is forwarded to a region that installs the deferred function; " +
 			"F1s each ExecFlags setter raises and lowers exactly its own bit (a setter that clears the debug flag silences stepping); P1p Code.List and Code.DebugPos, indexed in parallel, are assigned together and under the same test (the position table must not drift from the statements). " +
-			"N2 confinement of the debugger's state (shared with C18): nothing the compiler or executor computes depends on OptDebugger or Env.DebugComp. Not decided: the stop sequence of a concrete run.",
+			"N2 confinement of the debugger's state (shared with C18): nothing the compiler or executor computes depends on OptDebugger or Env.DebugComp. N8 a function that makes a fresh or recycled frame current assigns its CallDepth (the pool does not reset it); B3r after a breakpoint answered with anything but continue, execution goes on through Run.Interrupt under that answer alone. Not decided: the stop sequence of a concrete run.",
 		Assumptions: []string{"frames are pushed and popped as checked by C06 (new/free pairing)"},
 		Rules: []func(*Ctx){ruleDebuggerTable, ruleOptionConfinement, ruleDebugTermination, ruleDebugCompRecorded, func(c *Ctx) {
 			ruleDeferProtocol(c, "X5-defer-protocol")
 			ruleFlagSetters(c, "F1s-flag-setters", "fast", "ExecFlags", 3)
 			ruleParallelFields(c, "P1p-parallel-fields", "fast", "Code", "List", "DebugPos")
+			ruleCurrentFrameDepth(c, "N8-current-frame-depth")
+			ruleBreakpointRedirect(c, "B3r-breakpoint-redirect")
 		}},
 		Mutants: []Mutant{
+			{Name: "nested-frame-keeps-stale-depth", File: "fast/compile.go", Old: "\tenv.CallDepth = outer.CallDepth\n", New: ""},
+			{Name: "breakpoint-redirect-needs-armed-interrupt", File: "fast/debug.go", Old: "\t\tif sig != base.SigNone {\n\t\t\trun := env.Run\n", New: "\t\tif run := env.Run; sig != base.SigNone && run.Interrupt != nil {\n"},
 			{Name: "start-defer-setter-clears-debug-flag", File: "fast/global.go", Old: "\t\t(*ef) &^= EFStartDefer\n", New: "\t\t(*ef) &= EFDefer\n"},
 			{Name: "truncate-keeps-stale-positions", File: "fast/code.go", Old: "\tif len(code.DebugPos) > n {\n\t\tcode.DebugPos = code.DebugPos[0:n]\n\t}\n", New: ""},
 			{Name: "skipped-statement-narrows-depth", File: "fast/debug/api.go", Old: "return DebugOp{Depth: env.Run.DebugDepth}", New: "return DebugOp{Depth: env.CallDepth}"},
